@@ -115,6 +115,11 @@ impl<'a> CaseRunner<'a> {
     }
     fs.extend(monitors::pass_live(rec));
     fs.extend(monitors::check_dump(rec, &self.drv.shadow));
+    if let Some(pb) = rec.dump.problems.iter().find(|p| p.contains("panicked")) {
+      if self.any_abort || rec.aborted.is_some() {
+        fs.push(Finding { prop: "C19", sig: "store-corrupted-after-abort".into(), at: rec.events.len().saturating_sub(1), msg: format!("after an aborted build the dependency store is internally inconsistent: {}", pb) });
+      }
+    }
     fs.extend(monitors::pass_tracker(rec, &mut self.seen_tm));
     fs.extend(monitors::pass_errors(rec));
     match rec.kind {
